@@ -183,6 +183,17 @@ check("C13", "DESIGN.md 5/C13",
       "Stated limit: 32-bit rationals keep the exact grid small (length <= 4-5 over -2..3); 'any magnitude' is outside this family's reach. "
       "Trusted: sqrt and a 1e-9 comparison in the harness.")
 
+check("C17", "DESIGN.md 5/C17",
+      "TLA+ module Env.tla (three named layers, resolution order, required variables before/after, '.' expansion) with sufficiency and "
+      "necessity model-checked in TLC over every presence pattern; exhaustive replay with real frames, contexts and TRANSFORMS",
+      "TLC proves for every presence pattern of four names over the data and context layers x 8 formulas that the required variables are "
+      "sufficient and that removing one fails exactly when no lower layer provides the name (otherwise the source moves down), and the "
+      "'.' law for every column order; every case is executed: Formula.required_variables, success / FactorEvaluationError, cells (the "
+      "layers hold different numbers so the source is observable), variables_by_source, ModelSpec.required_variables, the restricted "
+      "build and the build with each required column removed.",
+      "Known finding D19 (a data column named like a transform is omitted by the pre-materialization estimate) is reported as "
+      "KNOWN-FINDING. Trusted: the concrete values placed in each layer.")
+
 NOT_YET = "check not yet built in this round (planned; see DESIGN.md section 5)"
 
 
